@@ -174,6 +174,8 @@ def cases(rng, tier):
     cs += [(l, "exhaustive") for l in ex]
     cs += [(l, "exhaustive_ternary_sampled" if sampled else "exhaustive") for l in tern]
     cs += [(l, "targeted") for l in targeted(rng, tier)]
+    for _ in range(800 if tier == "quick" else 10000):
+        cs.append((G.assign_default_tree(rng, rng.choice("us"), rng.choice((1, 2, 3, 4))).fmt(), "targeted_assign_default"))
     n = 6000 if tier == "quick" else 100000
     for _ in range(n):
         dom = rng.choice("us")
@@ -209,7 +211,7 @@ def observe(dist, c, impl, verd):
     w = flags(verd)
     toks = c.split()
     for k in ("dom_" + toks[1], "nv_" + toks[2]): dist[k] = dist.get(k, 0) + 1
-    for o in set(t for t in toks[3:] if t in ("K", "C", "Y", "U", "B", "T", "P", "R", "E", "X")):
+    for o in set(t for t in toks[3:] if t in ("K", "C", "Y", "A", "U", "B", "T", "P", "R", "E", "X")):
         dist["uses_" + o] = dist.get("uses_" + o, 0) + 1
     m = int(w.get("maxnodes", 0))
     b = "maxnodes_0" if m == 0 else "maxnodes_1-3" if m <= 3 else "maxnodes_4-7" if m <= 7 else "maxnodes_8+"
